@@ -180,6 +180,41 @@ func (c *Ctx) ruleCaretColumn(trunc, disp *ssa.Call) {
 			}
 			got := lc.of(r.Results[0])
 			okC := lc.prove(geq(got, want)) && lc.prove(geq(want, got))
+			// BOUNDED-BY-TEXT (found as D39): whatever the column is - a //line directive can name any - the caret
+			// does not stand further right than one past the shown text: the caret line, one padding per step, is
+			// as long as the number a comment names otherwise
+			{
+				lf := &linCtx{c: c, P: P, vars: map[ssa.Value]linExpr{}, ids: map[ssa.Value]string{}, trust: false}
+				colF := linVar("column")
+				lf.vars[tCol], lf.vars[dCol] = colF, colF
+				limF := linVar("limit")
+				if k, ok := constInt(limitArg); ok {
+					limF = linConst(k)
+				}
+				lf.vars[tLim], lf.vars[dLim] = limF, limF
+				lf.ids[tS], lf.ids[dS] = "line", "line"
+				lsF := lf.lenVar(tS)
+				lf.blockFacts(t.r.Block())
+				lf.blockFacts(b)
+				if !lf.prove(linConst(-1)) {
+					shown := linConst(0)
+					for _, p := range t.k.prefix {
+						shown = shown.add(lf.lenVar(p), 1)
+					}
+					lo, hi := linConst(0), lsF
+					if t.k.lo != nil {
+						lo = lf.of(t.k.lo)
+					}
+					if t.k.hi != nil {
+						hi = lf.of(t.k.hi)
+					}
+					shown = shown.add(hi, 1).add(lo, -1) // (markers behind the piece only make the text longer)
+					gotF := lf.of(r.Results[0])
+					okB := lf.prove(geq(shown.add(linConst(1), 1), gotF))
+					c.check(okB, "EXCERPT/CARET-PAD/BOUNDED-BY-TEXT", cons, where, "for any column the display column is at most one past the shown text",
+						fmt.Sprintf("for a column beyond the line (a //line directive can name any) the display column returned here is not bounded by the shown text (%s): the caret line gets as many paddings as the directive says", short(P.Desc(t.r.Results[0]))))
+				}
+			}
 			c.check(okC, "EXCERPT/CARET-COLUMN", cons, where, "the display column is len(markers before) + column - lo: the column the reported character has in the shown text",
 				fmt.Sprintf("when the line is shown as %s, the caret column returned here is not the column of the reported character in that text (len(markers before) + column - lo)", short(P.Desc(t.r.Results[0]))))
 		}
